@@ -15,6 +15,10 @@ from usim.py.resources.resource import Resource, PriorityResource, PreemptiveRes
     Preempted  # noqa: E402
 
 
+class _Done(Exception):
+    pass
+
+
 class SimProgError(Exception):
     def __init__(self, serial):
         super().__init__(serial)
@@ -197,7 +201,9 @@ class SimWorld:
                     event.succeed(op.get("value"))
                 else:
                     event.fail(SimProgError(op["serial"]))
-            except RuntimeError:
+            except RuntimeError as err:
+                if "already been triggered" not in str(err):
+                    raise
                 self.log(name, "retrigger-error", op["ev"])
         elif kind == "cond":
             try:
@@ -229,6 +235,68 @@ class SimWorld:
             raise SimProgError(op["serial"])
         else:
             raise ValueError(kind)
+
+    # ---- native usim activities next to the processes (embedded mode) ----------------------
+    async def native(self, spec):
+        name = spec["name"]
+        self.log(name, "start")
+        for op in spec.get("ops", ()):
+            await self.native_step(name, op)
+        self.log(name, "end")
+        return spec.get("ret")
+
+    async def native_step(self, name, op):
+        kind = op["op"]
+        if kind in ("native", "timeout"):
+            await (usim.time + op["d"])
+            self.log(name, kind + "-", op["d"], None)
+        elif kind == "wait":
+            try:
+                value = await self.events[op["ev"]]
+            except SimProgError as err:
+                self.log(name, "wait!", op["ev"], err.serial)
+            else:
+                self.log(name, "wait-", op["ev"], value)
+        elif kind == "join":
+            try:
+                value = await self.procs[op["proc"]]
+            except SimProgError as err:
+                self.log(name, "join!", op["proc"], err.serial)
+            else:
+                self.log(name, "join-", op["proc"], value)
+        elif kind == "cond":
+            try:
+                result = await self.condition(op)
+            except SimProgError as err:
+                self.log(name, "cond!", op["id"], err.serial)
+            else:
+                pairs = [(self.labels.get(id(ev), self._proc_label(ev)), value)
+                         for ev, value in result.items()]
+                self.log(name, "cond-", op["id"], tuple(sorted(pairs, key=repr)))
+        elif kind in ("succeed", "fail", "spawn", "interrupt"):
+            for _ in self.event_step(name, op):      # these never yield
+                raise RuntimeError("instantaneous op yielded")
+        else:
+            raise ValueError(kind)
+
+    async def embedded_main(self, setup):
+        from usim import Scope
+        scenario = self.scenario
+        self.env = Environment(initial_time=scenario.get("initial_time", 0))
+        self.make_resources()
+        self.make_events()
+        if setup is not None:
+            setup(self)
+        async with Scope() as outer:
+            async with self.env:
+                for spec in scenario.get("processes", ()):
+                    if spec.get("native"):
+                        task = outer.do(self.native(spec))
+                        self.procs[spec["name"]] = task
+                    else:
+                        proc = self.env.process(self.process(spec))
+                        self.procs[spec["name"]] = proc
+                        self.proc_name[id(proc)] = spec["name"]
 
     def _proc_label(self, event):
         name = self.proc_name.get(id(event))
@@ -361,6 +429,9 @@ def execute(case, setup=None):
     raised = None
     with world.seam as seam:
         try:
+            if scenario.get("embedded"):
+                usim.run(world.embedded_main(setup))
+                raise _Done
             world.env = Environment(initial_time=scenario.get("initial_time", 0))
             world.make_resources()
             world.make_events()
@@ -374,11 +445,18 @@ def execute(case, setup=None):
             value = world.env.run(until=until)
             outcome = ("ok",) if value is None else ("value", value)
             seam.finish()
+        except _Done:
+            outcome = ("ok",)
         except HarnessAbort as err:
             outcome = ("abort", type(err).__name__, str(err))
         except BaseException as err:
             if isinstance(err, KeyboardInterrupt):
                 raise
+            if isinstance(err, usim.Concurrent) and len(err.children) == 1 \
+                    and scenario.get("embedded"):
+                err = err.children[0]
+                if isinstance(err, usim.Concurrent) and len(err.children) == 1:
+                    err = err.children[0]
             if isinstance(err, SimProgError):
                 outcome = ("raise", ("SimProgError", err.serial))
             else:
